@@ -684,7 +684,18 @@ def decode_from_hdf5(value: Any) -> Any:
             return value.item()
         if value.dtype.kind in {"S", "O", "U"}:
             try:
-                return value.astype(str).tolist()
+                # h5py returns variable-length UTF-8 strings as bytes;
+                # astype(str) alone only handles ASCII
+                decoded = [
+                    v.decode("utf-8") if isinstance(v, bytes) else v
+                    for v in value.ravel().tolist()
+                ]
+                return (
+                    np.array(decoded, dtype=object)
+                    .reshape(value.shape)
+                    .astype(str)
+                    .tolist()
+                )
             except Exception:
                 # fallback: leave as ndarray
                 return value
